@@ -73,6 +73,7 @@ class FakeSocket(object):
         return ("accept", 1 << 30)
 
     def send(self, data, flags=0):
+        data = memoryview(data).cast("B") if not isinstance(data, (bytes, bytearray)) else data      # a socket sees the BYTES of a buffer
         el = self._send_el()
         if el[0] == "accept":
             k = min(el[1], len(data))
@@ -86,6 +87,7 @@ class FakeSocket(object):
         raise OSError(el[1], os.strerror(el[1]))
 
     def sendall(self, data, flags=0):
+        data = memoryview(data).cast("B") if not isinstance(data, (bytes, bytearray)) else data
         el = self._send_el()
         if el[0] == "accept":
             self.sent.extend(bytes(data))
